@@ -181,7 +181,8 @@ Definition order_case := (string * string * string * list (Z * Z * bool))%type.
    | 2 they agree with each other but not with NumPy on the densified operands *)
 Definition judge_order (c : order_case) : Z :=
   let '(cls, u, m, obs) := c in
-  let l := R cls (Ufunc u m) in
+  (* m = "product": a product family (matmul, dot, tensordot, kron, outer) named by its namespace function u *)
+  let l := if String.eqb m "product" then LfFunc u else R cls (Ufunc u m) in
   match obs with
   | [] => 0
   | (id0, k0, _) :: r =>
